@@ -24,19 +24,23 @@
                                  raise
      TryCompute.__enter__: if self.depth == 0: self.not_ready_yet = {}                    [clear_memo]
 
-   NOT modelled: Awaiting.known_cycles / found_cycles_stack (fix 22284d4).  That frame-scoped memo is written only by
-   remember_cycle(), called where symbolic_product() *catches* the DeferredCycle of a factor and goes on with the other
-   one.  No fn of this model catches an exception (an exception of a dependency always ends the whole evaluation), so
-   here known_cycles would be empty at all times, `id(self.deferred) in Awaiting.known_cycles` False, and the model is
-   still what wait() does on graphs of plain Deferred/Promise objects.  tools/gens/gen_partial.py pins the protocol
-   (the two dunder methods, remember_cycle, its single call site); its effect is covered by exploration only
-   (rings through product chains must be rejected with recursive-definition within the watchdog).
      Awaiting.__enter__: if self.deferred.is_awaiting: raise DeferredCycle(); is_awaiting = True
      Awaiting.__exit__ : is_awaiting = False               (on every exit path, also exceptions)
      Deferred._wait    : if settled: return value;  value = fn(); settled = True; return value
                          (an exception inside fn leaves the node unsettled)
      Promise._wait     : if not settled: not_ready(); raise Exception("... is not ready")
      TryCompute.__exit__: swallows NotReadyError and DeferredCycle (and nothing else)      [try_wait]
+
+   NOT modelled: Awaiting.known_cycles / found_cycles_stack (fixes 22284d4, 2b465cd) and the coefficient guard of
+   LinearPolynomial expansion (MAX_COEFFICIENT_BITS).  The frame-scoped cycle memo is written by remember_cycle(), called by
+   BaseDeferred.wait on every DeferredCycle on its way out and where symbolic_product() *catches* the DeferredCycle of a
+   factor and goes on with the other one; it is read by Awaiting.__enter__.  A read can only follow a write if some code
+   goes on evaluating after a DeferredCycle was caught.  No fn of this model catches an exception: a DeferredCycle of a
+   dependency unwinds to the outermost wait(), whose frame forgets everything it and its children remembered.  So on the
+   graphs of this model the memo is inert (the correspondence runs confirm it on the real objects); its purpose -- cutting
+   the 2**n retries of symbolic_product on rings -- lives in the nested-exception structure, which is covered by
+   exploration only (rings through DAG chains must be rejected with recursive-definition within the watchdog) and by the
+   reverse patches revert-C08-exponential-ring / -ring2.  tools/gens/gen_partial.py pins the protocol.
 
    A program's deferred objects are a finite graph: node k is
      NConst r      a Deferred/Promise that is already settled to r
